@@ -68,6 +68,11 @@ def main():
             s = c06.hashseed_suite(ctx)
             for d in s.disagreements:
                 out[d["sha"]] = d["what"][:120]
+        elif prop == "C19":
+            from props import c19
+            s = c19.alpha_suite(ctx)
+            for d in s.disagreements:
+                out[sweep.key(d["sha"], {}, d["rule"])] = d["what"][:160]
         elif prop == "C20":
             from props import c20
             s = c20.annotate_suite(ctx)
